@@ -1,4 +1,5 @@
 import VlsModel.Lemmas.Tracker
+import VlsModel.Model.TrackerHandler
 /-
 C13 — The chain tracker moves its tip only by validated blocks; rejected requests change nothing.
 
@@ -729,5 +730,254 @@ example : Linked exTracker ∧
   constructor
   · exact ⟨by decide, trivial⟩
   · decide
+
+/-! ## 9. Handler level: replies, process aborts, persistence (`handler.rs`, arms AddBlock / RemoveBlock / BlockChunk)
+
+At handler level only an orphan block and a missing proof are *refused by reply*; every other tracker error aborts the
+process (`panic!("add_block")`, `.expect("remove_block")`).  "A rejected request leaves everything as before, so a
+later correct request still succeeds" therefore reads: a reply-refusal leaves memory and the persisted entry untouched,
+and after an abort the restarted process is the node before the request — because the tracker entry is persisted only
+after an accepted request (`update_tracker` follows `Ok`).  Model: `Model/TrackerHandler.lean`. -/
+
+/-- general facts, streamed requests included: the persisted entry changes only with an `ok` reply … -/
+theorem C13_handler_store_only_on_ok (n : HNode) (op : HOp) (h : (hstep n op).2 ≠ .ok) :
+    (hstep n op).1.store = n.store := by
+  cases op with
+  | add hdr proof =>
+    cases proof with
+    | none => rfl
+    | some p =>
+      simp only [hstep, hAddBlock] at h ⊢
+      cases hres : Tracker.addBlock n.mem hdr p with
+      | mk t o =>
+        rw [hres] at h
+        cases o with
+        | ok => exact absurd rfl h
+        | panic => rfl
+        | err k => cases k <;> rfl
+  | remove proof prev =>
+    cases proof with
+    | none => rfl
+    | some p =>
+      simp only [hstep, hRemoveBlock] at h ⊢
+      cases hres : Tracker.removeBlock n.mem p prev with
+      | mk t o =>
+        rw [hres] at h
+        cases o with
+        | ok => exact absurd rfl h
+        | panic => rfl
+        | err k => rfl
+  | chunk d a =>
+    simp only [hstep, hBlockChunk]
+    cases hres : blockChunk n.mem d a with
+    | mk t o => cases o <;> rfl
+  | restart => exact absurd rfl h
+
+/-- … an `ok` reply to AddBlock / RemoveBlock means the new tip is in the persister … -/
+theorem C13_handler_ok_persisted (n : HNode) (op : HOp) (hop : ∀ d a, op ≠ .chunk d a) (hr : op ≠ .restart)
+    (h : (hstep n op).2 = .ok) : (hstep n op).1.store = (hstep n op).1.mem.view := by
+  cases op with
+  | add hdr proof =>
+    cases proof with
+    | none => cases h
+    | some p =>
+      simp only [hstep, hAddBlock] at h ⊢
+      cases hres : Tracker.addBlock n.mem hdr p with
+      | mk t o =>
+        rw [hres] at h
+        cases o with
+        | ok => rfl
+        | panic => cases h
+        | err k => cases k <;> cases h
+  | remove proof prev =>
+    cases proof with
+    | none => cases h
+    | some p =>
+      simp only [hstep, hRemoveBlock] at h ⊢
+      cases hres : Tracker.removeBlock n.mem p prev with
+      | mk t o =>
+        rw [hres] at h
+        cases o with
+        | ok => rfl
+        | panic => cases h
+        | err k => cases h
+  | chunk d a => exact absurd rfl (hop d a)
+  | restart => exact absurd rfl hr
+
+/-- … and a restart puts exactly the persisted entry (and the configured network / oracle set / deep-reorg flag) back
+    into memory, with no stream in progress -/
+theorem C13_handler_restart_view (n : HNode) :
+    (hRestart n).mem.view = n.store ∧ (hRestart n).mem.decoding = none ∧ (hRestart n).mem.ldec = false ∧
+    (hRestart n).mem.trusted = n.cfg.trusted ∧ (hRestart n).store = n.store := by
+  refine ⟨?_, rfl, rfl, rfl, rfl⟩
+  cases hs : n.store
+  simp [hRestart, Tracker.ofStore, Tracker.view, hs]
+
+/-- invariant between requests when no stream is in progress: the persisted entry is the tracker's view, memory
+    carries the node's configuration, no decode state is held anywhere -/
+structure HInv (n : HNode) : Prop where
+  synced : n.store = n.mem.view
+  net : n.mem.network = n.cfg.network
+  trusted : n.mem.trusted = n.cfg.trusted
+  deep : n.mem.allowDeep = n.cfg.allowDeep
+  nodec : n.mem.decoding = none
+  noldec : n.mem.ldec = false
+
+theorem HInv.ofStore_eq {n : HNode} (i : HInv n) : Tracker.ofStore n.cfg n.store = n.mem := by
+  obtain ⟨h1, h2, h3, h4, h5, h6⟩ := i
+  cases hm : n.mem with
+  | mk headers tip height network listeners decoding ldec trusted allowDeep =>
+    rw [hm] at h1 h2 h3 h4 h5 h6
+    simp only [Tracker.view] at h1
+    simp only at h2 h3 h4 h5 h6
+    simp [Tracker.ofStore, h1, ← h2, ← h3, ← h4, h5, h6]
+
+theorem HInv.restart_eq {n : HNode} (i : HInv n) : hRestart n = n := by
+  cases n with
+  | mk mem store cfg =>
+    simp only [hRestart]
+    rw [i.ofStore_eq]
+
+theorem HInv.abortStream_eq {n : HNode} (i : HInv n) : n.mem.abortStream = n.mem := by
+  obtain ⟨_, _, _, _, h5, h6⟩ := i
+  cases hm : n.mem
+  rw [hm] at h5 h6
+  simp only at h5 h6
+  simp [Tracker.abortStream, h5, h6]
+
+/-- **C13 at handler level, compact requests.**  For AddBlock / RemoveBlock without a stream in progress:
+    a reply-refusal returns the identical node; an accepted request re-establishes the invariant with the new tip
+    persisted; and if the handler aborts, the restarted process *is* the node before the request. -/
+theorem C13_handler_request (n : HNode) (op : HOp) (i : HInv n) (hop : ∀ d a, op ≠ .chunk d a) :
+    ((hstep n op).2 = .ok → HInv (hstep n op).1) ∧
+    (((hstep n op).2 = .signerError ∨ (hstep n op).2 = .invalidArgument) → (hstep n op).1 = n) ∧
+    ((hstep n op).2 = .abort → hRestart (hstep n op).1 = n) := by
+  have hn : (⟨n.mem, n.store, n.cfg⟩ : HNode) = n := by cases n; rfl
+  have hre : hRestart n = n := i.restart_eq
+  -- the three shapes a request can take
+  have refused : ∀ (r : HReply), r ≠ .ok → r ≠ .abort →
+      (((⟨n.mem, n.store, n.cfg⟩ : HNode), r).2 = .ok → HInv ((⟨n.mem, n.store, n.cfg⟩ : HNode), r).1) ∧
+      (((((⟨n.mem, n.store, n.cfg⟩ : HNode), r).2 = .signerError ∨ ((⟨n.mem, n.store, n.cfg⟩ : HNode), r).2 = .invalidArgument)) →
+          ((⟨n.mem, n.store, n.cfg⟩ : HNode), r).1 = n) ∧
+      (((⟨n.mem, n.store, n.cfg⟩ : HNode), r).2 = .abort → hRestart ((⟨n.mem, n.store, n.cfg⟩ : HNode), r).1 = n) := by
+    intro r h1 h2
+    refine ⟨?_, ?_, ?_⟩
+    · intro h; exact absurd h h1
+    · intro _; exact hn
+    · intro h; exact absurd h h2
+  have aborted : ∀ (t : Tracker),
+      (((⟨t, n.store, n.cfg⟩ : HNode), HReply.abort).2 = .ok → HInv ((⟨t, n.store, n.cfg⟩ : HNode), HReply.abort).1) ∧
+      (((((⟨t, n.store, n.cfg⟩ : HNode), HReply.abort).2 = .signerError ∨ ((⟨t, n.store, n.cfg⟩ : HNode), HReply.abort).2 = .invalidArgument)) →
+          ((⟨t, n.store, n.cfg⟩ : HNode), HReply.abort).1 = n) ∧
+      (((⟨t, n.store, n.cfg⟩ : HNode), HReply.abort).2 = .abort → hRestart ((⟨t, n.store, n.cfg⟩ : HNode), HReply.abort).1 = n) := by
+    intro t
+    refine ⟨?_, ?_, ?_⟩
+    · intro h; cases h
+    · intro h; rcases h with h | h <;> cases h
+    · intro _
+      show (⟨Tracker.ofStore n.cfg n.store, n.store, n.cfg⟩ : HNode) = n
+      rw [i.ofStore_eq]
+  cases op with
+  | chunk d a => exact absurd rfl (hop d a)
+  | restart =>
+    simp only [hstep]
+    rw [hre]
+    exact ⟨fun _ => i, fun _ => rfl, fun h => nomatch h⟩
+  | add hdr proof =>
+    simp only [hstep, hAddBlock]
+    cases proof with
+    | none =>
+      rw [i.abortStream_eq]
+      exact refused .invalidArgument (by decide) (by decide)
+    | some p =>
+      simp only
+      rcases addBlock_cases n.mem hdr p with c | ⟨k, hk, _⟩ | ⟨ls, hk, _, _, _⟩
+      · have e : addBlock n.mem hdr p = ((addBlock n.mem hdr p).1, .panic) := by rw [← c]
+        rw [e]
+        exact aborted _
+      · rw [hk, aborted_of_none i.nodec]
+        cases k
+        case orphan => exact refused .signerError (by decide) (by decide)
+        all_goals exact aborted _
+      · rw [hk]
+        refine ⟨fun _ => ?_, ?_, ?_⟩
+        · refine ⟨rfl, ?_, ?_, ?_, rfl, ?_⟩
+          · simpa [Tracker.added, Tracker.undecode] using i.net
+          · simpa [Tracker.added, Tracker.undecode] using i.trusted
+          · simpa [Tracker.added, Tracker.undecode] using i.deep
+          · simp [Tracker.added, Tracker.undecode, i.noldec]
+        · intro h; rcases h with h | h <;> cases h
+        · intro h; cases h
+  | remove proof prev =>
+    simp only [hstep, hRemoveBlock]
+    cases proof with
+    | none =>
+      rw [i.abortStream_eq]
+      exact refused .invalidArgument (by decide) (by decide)
+    | some p =>
+      simp only
+      rcases removeBlock_cases n.mem p prev with c | ⟨k, hk⟩ | ⟨ls, hk, _⟩
+      · have e : removeBlock n.mem p prev = ((removeBlock n.mem p prev).1, .panic) := by rw [← c]
+        rw [e]
+        exact aborted _
+      · rw [hk, aborted_of_none i.nodec]
+        exact aborted _
+      · rw [hk]
+        refine ⟨fun _ => ?_, ?_, ?_⟩
+        · refine ⟨rfl, ?_, ?_, ?_, rfl, ?_⟩
+          · simpa [Tracker.removed, Tracker.undecode] using i.net
+          · simpa [Tracker.removed, Tracker.undecode] using i.trusted
+          · simpa [Tracker.removed, Tracker.undecode] using i.deep
+          · simp [Tracker.removed, Tracker.undecode, i.noldec]
+        · intro h; rcases h with h | h <;> cases h
+        · intro h; cases h
+
+/-- histories of compact requests and restarts: the invariant holds throughout, and a request that is refused or
+    aborts (followed by the restart) can be deleted from the history without changing anything that follows:
+    **the later correct request still succeeds** -/
+theorem hrun_cons (n : HNode) (op : HOp) (ops : List HOp) :
+    hrun n (op :: ops) = hrun (if (hstep n op).2 = .abort then hRestart (hstep n op).1 else (hstep n op).1) ops := rfl
+
+theorem C13_handler_run (n : HNode) (ops : List HOp) (i : HInv n) (hc : ∀ op ∈ ops, ∀ d a, op ≠ .chunk d a) :
+    HInv (hrun n ops) := by
+  induction ops generalizing n with
+  | nil => exact i
+  | cons op ops ih =>
+    rw [hrun_cons]
+    have hop := hc op (by simp)
+    obtain ⟨h1, h2, h3⟩ := C13_handler_request n op i hop
+    have hrest : ∀ o ∈ ops, ∀ d a, o ≠ .chunk d a := fun o ho => hc o (by simp [ho])
+    cases hr : (hstep n op).2 with
+    | ok => rw [if_neg (by decide)]; exact ih _ (h1 hr) hrest
+    | signerError => rw [if_neg (by decide), h2 (Or.inl hr)]; exact ih n i hrest
+    | invalidArgument => rw [if_neg (by decide), h2 (Or.inr hr)]; exact ih n i hrest
+    | abort => rw [if_pos rfl, h3 hr]; exact ih n i hrest
+
+theorem C13_handler_skip_refused (n : HNode) (op : HOp) (ops : List HOp) (i : HInv n)
+    (hop : ∀ d a, op ≠ .chunk d a) (hr : (hstep n op).2 ≠ .ok) :
+    hrun n (op :: ops) = hrun n ops := by
+  obtain ⟨_, h2, h3⟩ := C13_handler_request n op i hop
+  rw [hrun_cons]
+  cases hq : (hstep n op).2 with
+  | ok => exact absurd hq hr
+  | signerError => rw [if_neg (by decide), h2 (Or.inl hq)]
+  | invalidArgument => rw [if_neg (by decide), h2 (Or.inr hq)]
+  | abort => rw [if_pos rfl, h3 hq]
+
+/-- a node freshly built from a persisted entry satisfies the invariant -/
+theorem C13_handler_inv_of_store (c : HConfig) (v : View) : HInv ⟨Tracker.ofStore c v, v, c⟩ := by
+  refine ⟨?_, rfl, rfl, rfl, rfl, rfl⟩
+  cases v; rfl
+
+/-- non-vacuity on the example tracker: an orphan is refused by reply, a block without the oracle majority aborts the
+    process, the correct block is accepted afterwards and persisted -/
+example :
+    let n0 : HNode := ⟨Tracker.ofStore ⟨.regtest, [1, 2, 3], false⟩ exTracker.view, exTracker.view,
+                       ⟨.regtest, [1, 2, 3], false⟩⟩
+    (hstep n0 (.add ⟨11, 7, 1, 0, true⟩ (some (exProof [1, 2])))).2 = .signerError ∧
+    (hstep n0 (.add exHeader (some (exProof [1])))).2 = .abort ∧
+    (hstep n0 (.add exHeader none)).2 = .invalidArgument ∧
+    (hrun n0 [.add ⟨11, 7, 1, 0, true⟩ (some (exProof [1, 2])), .add exHeader (some (exProof [1])),
+              .add exHeader (some (exProof [1, 2]))]).store.height = 6 := by decide
 
 end VlsModel.Props.C13
